@@ -76,6 +76,12 @@ func main() {
 		os.Exit(runAudit(*repo, *verif, *prop, seed))
 	}
 
+	if *dump == "cursor" {
+		p, _ := LoadRepo(*repo, false, "", nil)
+		debugCursor2(p)
+		debugCursor(p)
+		return
+	}
 	if *dump != "" || *listF {
 		p, err := LoadRepo(*repo, false, *goarch, ov)
 		if err != nil {
